@@ -16,13 +16,17 @@ Proof.
     replace (vf_version a) with 0 by lia. reflexivity. }
   rewrite Hv.
   destruct ((a0 =? 0) || (lenN a1 =? 0)) eqn:E1; cbn [negb andb orb] in *.
-  - apply N.eqb_eq in G. rewrite (lenN_0_nil _ G) in *.
-    assert (Hp : has (vf_flags a) 2 && (0 <? a0) = false).
+  - assert (Hp : has (vf_flags a) 2 && (0 <? a0) = false).
     { destruct (has (vf_flags a) 2); [|reflexivity]. cbn [andb] in *. apply N.ltb_ge in Hc2. apply N.ltb_ge.
-      change (lenN (@nil N)) with 0 in Hlen. lia. }
+      apply orb_true_iff in E1. destruct E1 as [E1|E1]; apply N.eqb_eq in E1; lia. }
     rewrite Hp.
+    assert (Hw : (if senc_keeps false a0 (h_size h - h_len h + 8) then a1 else []) = a1).
+    { destruct (senc_keeps false a0 (h_size h - h_len h + 8)); [reflexivity|]. cbn [orb] in G. apply N.eqb_eq in G.
+      symmetry. apply lenN_0_nil. exact G. }
+    rewrite Hw.
     eexists; split; [reflexivity|]. split; [|assumption]. repeat rewrite <- app_assoc. reflexivity.
-  - eexists; split; [reflexivity|]. split; [|assumption]. repeat rewrite <- app_assoc. reflexivity.
+  - unfold senc_keeps. cbn [orb].
+    eexists; split; [reflexivity|]. split; [|assumption]. repeat rewrite <- app_assoc. reflexivity.
 Qed.
 
 Lemma lossless_kind : leaf_lossless dec_kind.
